@@ -1,5 +1,11 @@
-"""C15 — DnsRequest::onUdpRecv (modules/network/dns_request.cpp): a datagram becomes a result for one outstanding lookup.
-(draft)
+"""NOT LOADED (file name starts with "_"): the harness extracts and instruments, but the installed solvers do not decide it - both minisat and
+cadical run out of memory (24 GB) while converting the instrumented function (two contracted loops, ~25 replaced Deserializer /
+FetchDomain calls on address-taken locals); per-obligation slicing did not finish in 25 minutes.  Kept as the record of the attempt.
+
+C15 — DnsRequest::onUdpRecv (modules/network/dns_request.cpp): a datagram becomes a result for one outstanding lookup.
+Intended contract: unmatched / non-reply datagrams ignored; callback at most once and the lookup finished exactly then; only addresses whose
+four bytes are inside the datagram are reported (ghost count of decoded vs pushed A records); every read through the Deserializer contracts;
+both record loops terminate.
 """
 import os, importlib.util
 from verif import UnitSpec, Target, VERIF
